@@ -76,12 +76,12 @@ type Term struct {
 }
 
 type TB struct {
-	terms map[string]*Term
-	next  int
-	ufs   map[string]*ufDecl
-	fresh map[string]int
+	terms        map[string]*Term
+	next         int
+	ufs          map[string]*ufDecl
+	fresh        map[string]int
 	groundByRoot map[string][]*Term
-	selMemo map[[2]int]*Term
+	selMemo      map[[2]int]*Term
 	// cover (satisfiability) queries: the definitional axioms of array copies are left out, the copies
 	// become unconstrained arrays - a weakening, so unsat still proves vacuity and sat is decided quickly
 	dropCaAxioms bool
